@@ -230,44 +230,7 @@ func runC03(c *Ctx) {
 	}
 
 	// ---- R3
-	// (a) every call of Conn.dispatch
-	nRecvDispatch := 0
-	for _, cs := range c.Callers(a.ConnDispatch) {
-		fn := cs.Parent()
-		evs := c.EventDispatches(fn, a)
-		isEvent := false
-		for _, e := range evs {
-			if e.Site == cs {
-				isEvent = true
-			}
-		}
-		if isEvent {
-			continue // lifecycle pseudo-events: R4/R5 and C06
-		}
-		ok := fn == consumer && kindName(cs) == "call"
-		why := kindName(cs) + " in " + c.FuncKey(fn)
-		if ok {
-			// argument is the received value
-			arg := cs.Common().Args[1]
-			okArg := false
-			for _, op := range recvs {
-				if op.In.Parent() == consumer && recvValue(op) != nil {
-					for _, o := range c.Origins(arg) {
-						if o == recvValue(op) {
-							okArg = true
-						}
-					}
-				}
-			}
-			if !okArg {
-				ok, why = false, "dispatched line is not the value received from the inbound queue"
-			} else {
-				nRecvDispatch++
-			}
-		}
-		r.Add("R3", "conn-dispatch:"+c.FuncKey(fn)+":"+kindName(cs), c.InstrPos(cs), c.FuncKey(fn), "a server line is dispatched only by a plain call in the consumer goroutine", ok, why)
-	}
-	r.Floor("R3", "dispatch of the received line in the consumer", nRecvDispatch, 1)
+	c.connDispatchRule("R3", consumer, recvs)
 	// (b) set dispatch sites
 	nSet := 0
 	for _, cs := range c.SetDispatchSites() {
@@ -468,4 +431,49 @@ func (c *Ctx) isStoreThroughField(in ssa.Instruction, fv *types.Var) bool {
 	}
 	f, _ := loadedField(fa.X)
 	return f == fv
+}
+
+// connDispatchRule: every call of Conn.dispatch with a server line is a plain
+// call in the consumer goroutine, passing the value received from the
+// inbound queue (shared by C03.R3 and C05.R4).
+func (c *Ctx) connDispatchRule(rule string, consumer *ssa.Function, recvs []ChanOp) {
+	r, a := c.R, c.A
+	// (a) every call of Conn.dispatch
+	nRecvDispatch := 0
+	for _, cs := range c.Callers(a.ConnDispatch) {
+		fn := cs.Parent()
+		evs := c.EventDispatches(fn, a)
+		isEvent := false
+		for _, e := range evs {
+			if e.Site == cs {
+				isEvent = true
+			}
+		}
+		if isEvent {
+			continue // lifecycle pseudo-events: R4/R5 and C06
+		}
+		ok := fn == consumer && kindName(cs) == "call"
+		why := kindName(cs) + " in " + c.FuncKey(fn)
+		if ok {
+			// argument is the received value
+			arg := cs.Common().Args[1]
+			okArg := false
+			for _, op := range recvs {
+				if op.In.Parent() == consumer && recvValue(op) != nil {
+					for _, o := range c.Origins(arg) {
+						if o == recvValue(op) {
+							okArg = true
+						}
+					}
+				}
+			}
+			if !okArg {
+				ok, why = false, "dispatched line is not the value received from the inbound queue"
+			} else {
+				nRecvDispatch++
+			}
+		}
+		r.Add(rule, "conn-dispatch:"+c.FuncKey(fn)+":"+kindName(cs), c.InstrPos(cs), c.FuncKey(fn), "a server line is dispatched only by a plain call in the consumer goroutine", ok, why)
+	}
+	r.Floor(rule, "dispatch of the received line in the consumer", nRecvDispatch, 1)
 }
